@@ -104,7 +104,7 @@ def control_must_fail(chk, name, c, expect):
 
 
 def run_parallel(fns):
-    with ThreadPoolExecutor(max(1, min(len(fns), 4))) as ex:
+    with ThreadPoolExecutor(max(1, min(len(fns), 6))) as ex:
         futs = [ex.submit(f) for f in fns]
         return [f.result() for f in futs]
 
@@ -122,7 +122,7 @@ def _printed_hists(out: str):
 def enumerate_histories(name, c, timeout=900):
     """All behaviours of History.tla of exactly MaxEvents events (exhaustive search, hist not hidden by a VIEW)."""
     d = tlc.stage(name, ["History"])
-    r = tlc.run(d, "History", cfg_text=cfg(dict(c, Record=True), invs=["EmitHist"]), timeout=timeout, workers=4)
+    r = tlc.run(d, "History", cfg_text=cfg(dict(c, Record=True), invs=["EmitHist"]), timeout=timeout, workers=2)
     tlc.must_ok(r, name)
     if not r.ok:
         raise MachineryError(f"history enumeration {name} ended with {r.violated}")
@@ -132,7 +132,7 @@ def enumerate_histories(name, c, timeout=900):
 def simulate_histories(name, c, n, depth, seed, timeout=900):
     """n random behaviours of History.tla of `depth` events each."""
     d = tlc.stage(name, ["History"])
-    w = max(1, min(4, n))
+    w = max(1, min(2, n))
     per = max(1, (n + w - 1) // w)
     r = tlc.run(d, "History", cfg_text=cfg(dict(c, Record=True, MaxEvents=depth), invs=["EmitHist"]),
                 simulate=f"num={per}", depth=depth + 2, seed=seed, workers=w, timeout=timeout)
@@ -514,7 +514,7 @@ def trace_controls(chk, own, events):
                 if e["sigkey"] in seen and not e["sha"].startswith("EXC"):
                     cases.append((i, "Functional", "sha"))
                 seen.add(e["sigkey"])
-        cases = cases[-1:]
+        cases = cases[:1]
     else:
         seen, got = set(), {}
         for i, e in enumerate(ev):
@@ -522,14 +522,14 @@ def trace_controls(chk, own, events):
                 continue
             if e["reqkey"] in seen:
                 got.setdefault("Stable", (i, "Stable", "modname"))
-            if e["hasclass"]:
-                got["ValidIdentifiers"] = (i, "ValidIdentifiers", "idc")
-                got["DistinctObjects"] = (i, "DistinctObjects", "defs")
+            if e["hasclass"] and e["defs"] and len(e["idc"][0]) > 3:
+                got.setdefault("ValidIdentifiers", (i, "ValidIdentifiers", "idc"))
+                got.setdefault("DistinctObjects", (i, "DistinctObjects", "defs"))
             seen.add(e["reqkey"])
         cases = list(got.values())
-    done = []
-    for i, prop, field in cases:
-        bad = copy.deepcopy(ev)
+    def one(case):
+        i, prop, field = case
+        bad = copy.deepcopy(ev[: i + 1])
         e = bad[i]
         if field == "sha":
             e["sha"] = ("0" if e["sha"][0] != "0" else "1") + e["sha"][1:]
@@ -545,7 +545,9 @@ def trace_controls(chk, own, events):
         if not any(line == i + 1 and p == prop for line, p, _ in viol):
             raise MachineryError(f"negative control: corrupted {field} of event {i + 1} was not rejected as {prop} "
                                  f"(verdicts there: {[v for v in viol if v[0] == i + 1]})")
-        done.append(f"trace:{field}->{prop}@{i + 1}")
+        return f"trace:{field}->{prop}@{i + 1}"
+
+    done = run_parallel([lambda c=c: one(c) for c in cases]) if cases else []
     chk.add(controls_rejected=done)
     if not done:
         chk.note("no event suitable for a trace-corruption control in this run")
@@ -604,10 +606,11 @@ def run_c12(chk):
     seeds = seeds_for(chk, 1 if quick else 4)
     # design level ------------------------------------------------------------------------------------------
     base = consts(Sig=["s1", "s2"], Opt=["o1", "o2"], MaxEvents=5 if quick else 6)
-    jobs = [lambda: design_must_hold(chk, "c12-design", base, coverage=True)]
+    jobs = [lambda: design_must_hold(chk, "c12-design", base, coverage=not quick)]
+    if quick:       # vacuity (every action taken) on a shallower copy: -coverage is slow
+        jobs.append(lambda: design_must_hold(chk, "c12-vacuity", dict(base, MaxEvents=3), coverage=True))
     for leak in ("seed", "counter", "cache"):
         jobs.append(lambda leak=leak: control_must_fail(chk, f"c12-leak-{leak}", dict(base, Leak=leak), "Functional"))
-    run_parallel(jobs)
     # spec -> code: histories -------------------------------------------------------------------------------
     rnd = random.Random(chk.seed)
     tmpl = list(meta.QUICK if quick else meta.ALL_TEMPLATES) + ([] if quick else ["demo:" + d for d in meta.demo_names(REPO)])
@@ -617,11 +620,11 @@ def run_c12(chk):
     g = consts(Proc=["p1"], Seed=seeds, Sig=tmpl, Route=[0, 1], Opt=opts, Flag=[], Record=True)
     opt2 = ["default", opts[1 + chk.seed % (len(opts) - 1)]]
     sub = tmpl if quick else rnd.sample(tmpl, 24)
-    (h1, r1), (h2, r2), (h3, r3) = run_parallel([
+    (h1, r1), (h2, r2), (h3, r3) = run_parallel(jobs + [
         lambda: enumerate_histories("c12-enum2", dict(g, Route=[0, 1, 9], MaxEvents=2)),
         lambda: enumerate_histories("c12-enum3", dict(g, Seed=[0], Sig=sub, Opt=opt2, MaxEvents=3)),
         lambda: simulate_histories("c12-sim", dict(g, Proc=["p1", "p2", "p3"]), 240 if quick else 2400,
-                                   36 if quick else 60, chk.seed + 11)])
+                                   36 if quick else 60, chk.seed + 11)])[-3:]
     cand = dedupe([y for h in h1 + h2 for x in lives_of(h) for y in prefixes(x)] + [x for h in h3 for x in lives_of(h)])
     chk.add(transitions=r1.generated + r2.generated + r3.generated, states=r1.distinct + r2.distinct,
             histories_enumerated=len(h1) + len(h2), histories_simulated=len(h3), candidate_lives=len(cand))
@@ -679,9 +682,8 @@ def c13_axes(quick):
     return {
         "points": dict(Sig=["expr_tri", "expr_int"], Vis=meta.PTS_BASE, Hid=meta.PTS_HID, Opt=["default"],
                        Flag=["O2"], MaxObjs=1),
-        "options": dict(Sig=(some if quick else forms) + ["expr_tri"], Vis=["tri6"], Hid=["none"], Opt=list(meta.OPTS),
-                        Flag=["O2"], MaxObjs=1),
-        "literals": dict(Sig=forms, Vis=["tri6"], Hid=["none"], Opt=["default"], Flag=["O2"], MaxObjs=1),
+        # every option toggled, for every form (among them the integrands that differ in one literal)
+        "options": dict(Sig=forms + ["expr_tri"], Vis=["tri6"], Hid=["none"], Opt=list(meta.OPTS), Flag=["O2"], MaxObjs=1),
         "flags": dict(Sig=["mass_lit2", "expr_tri"] if quick else ["mass_lit2", "two_forms", "expr_tri"], Vis=["tri6"],
                       Hid=["none"], Opt=["default"] if quick else ["default", "float32"], Flag=list(meta.FLAGS), MaxObjs=1),
         "listing": dict(Sig=(some if quick else forms) + ["expr_tri"], Vis=["tri6", "tri6_dyadic"], Hid=["none", "eps"],
@@ -694,10 +696,11 @@ def run_c13(chk):
     quick = chk.tier == "quick"
     seeds = seeds_for(chk, 1 if quick else 4)
     base = consts(Sig=["s1"], Route=[0] if quick else [0, 1], Opt=["o1"] if quick else ["o1", "o2"], Vis=["v1", "v2"],
-                  Hid=["h1", "h2"], Flag=["f1", "f2"], MaxObjs=2, MaxEvents=4)
+                  Hid=["h1", "h2"], Flag=["f1"] if quick else ["f1", "f2"], MaxObjs=2, MaxEvents=4)
     small = dict(base, Opt=["o1"], Flag=["f1"], Route=[0], MaxEvents=4)
-    run_parallel([
-        lambda: design_must_hold(chk, "c13-design", base, coverage=True),
+    jobs0 = ([
+        lambda: design_must_hold(chk, "c13-design", base, coverage=not quick),
+        lambda: design_must_hold(chk, "c13-vacuity", dict(base, MaxEvents=3), coverage=True),
         lambda: control_must_fail(chk, "c13-lossy", dict(small, Lossy=True), "Separating"),
         lambda: control_must_fail(chk, "c13-droppos", dict(small, DropPos=True), "DistinctObjects"),
         lambda: control_must_fail(chk, "c13-leak-seed", dict(small, Leak="seed"), "Stable"),
@@ -711,7 +714,7 @@ def run_c13(chk):
         gs = dict(g, Proc=["p1", "p2", "p3"], Seed=seeds, Route=[0, 1])
         jobs.append(lambda gs=gs, name=name, i=i: simulate_histories(
             f"c13-sim-{name}", gs, 60 if quick else 500, 40 if quick else 60, chk.seed + 31 + i))
-    res = run_parallel(jobs)
+    res = run_parallel(jobs0 + jobs)[len(jobs0):]
     enum = dedupe([x for (h, _) in res[0::2] for hh in h for x in lives_of(hh)])    # depth 2: Spawn + one event
     sim = dedupe([x for (h, _) in res[1::2] for hh in h for x in lives_of(hh)])
     single = {json.dumps(x["events"][0]["recipe"], sort_keys=True): x for x in enum if x["events"][0]["act"] == "Name"}
